@@ -109,9 +109,14 @@ func (r *bucketRegistry) deleteBucket(ctx context.Context, bucket *Bucket) error
 	defer r.lock.Unlock()
 
 	// Only forget the registry entry if it is this bucket's, not a newer bucket that re-uses the name:
-	if registered, ok := r.buckets[name]; ok && registered.sqliteDB == bucket.sqliteDB {
-		delete(r.buckets, name)
-		delete(r.bucketCount, name)
+	if registered, ok := r.buckets[name]; ok {
+		if registered.sqliteDB == bucket.sqliteDB {
+			delete(r.buckets, name)
+			delete(r.bucketCount, name)
+		} else if registered.url == bucket.url {
+			// This handle's bucket is gone already, and a newer bucket lives at the same place: the files are its.
+			return nil
+		}
 	}
 	return DeleteBucketAt(bucket.url)
 }
